@@ -286,15 +286,16 @@ StrictClasses == MC!StrictClasses \cup {"prefix"}
 Pay(n, f, m, l) == <<f>> \o Fill(n - 2, m) \o <<l>>
 S(b) == <<"s", b>>
 Bv(b) == <<"b", b>>
-IntPool == << N(0), N(-1), N(64), Lm(FALSE, Pow2(63)), Lm(TRUE, Pow2(100)), N(1), N(-64), N(-65), N(8192), Lm(FALSE, Pow2(64)) >>
-NatPool == << N(0), N(1), Lm(FALSE, Pow2(64)), N(127), N(128), Lm(FALSE, Pow2(100)) >>
+IntPool == << N(0), N(-1), N(64), Lm(FALSE, Pow2(63)), Lm(TRUE, Pow2(100)), N(1), N(-64), N(-65), N(8192), Lm(FALSE, Pow2(64)),
+             Lm(FALSE, Pow2(4096)), Lm(TRUE, Pow2(2047)) >>                                  \* thousands of bits
+NatPool == << N(0), N(1), Lm(FALSE, Pow2(64)), N(127), N(128), Lm(FALSE, Pow2(100)), Lm(FALSE, Pow2(4096)) >>
 MutezPool == << N(0), N(1), <<"i", MutezMax>>, N(1000000) >>
 TsPool == << N(0), N(1600000000), <<"i", BI!Sub(Y1000, One)>>, <<"i", Y10000>>,       \* 1970, 2020, 0999-12-31T23:59:59Z, 10000-01-01T00:00:00Z
              N(-1), N(1), <<"i", Y1000>>, <<"i", BI!Sub(Y10000, One)>>,               \* 1000-01-01T00:00:00Z, 9999-12-31T23:59:59Z
              <<"i", Y1>>, <<"i", BI!Sub(Y1, One)>>, <<"i", Y0>>, <<"i", BI!Sub(Y0, One)>>,    \* year 1, year 0 (last and first second), year -1
              Lm(FALSE, Pow2(63)), Lm(TRUE, Pow2(63)), Lm(FALSE, Pow2(100)), Lm(TRUE, Pow2(100)),
              N(951827696), <<"i", Secs(-536662, 45296)>>, <<"i", Secs(-719162 + 58, 86399)>> >>  \* 2000-02-29T12:34:56Z, year 500, 0001-02-28T23:59:59Z
-StrPool == << S(<<>>), S(<<97>>), S(<<72, 105, 32, 33>>) >>
+StrPool == << S(<<>>), S(<<97>>), S(<<72, 105, 32, 33>>), S(<<34, 92, 10, 126>>) >>          \* "", "a", "Hi !", quote backslash newline tilde
 BytesPool == << Bv(<<>>), Bv(<<0, 255>>), Bv(<<5, 1, 2>>) >>
 BoolPool == << <<"bool", TRUE>>, <<"bool", FALSE>> >>
 AddrPool == << <<"a", <<0, 0>> \o Pay(20, 1, 7, 9), <<>>>>,                           \* tz1
